@@ -110,6 +110,7 @@ type harness struct {
 	srv          *ncsim.Server
 	cur          int // call in progress, -1 between calls
 	maxWrites    int // transport writes per call: 2 (1.0) or 3 (1.1)
+	sc           *slowConn
 	writesInCall int
 	recs         []callRec
 	lastID       int
@@ -234,6 +235,18 @@ type slowConn struct {
 	n, slowAt int
 	delay     time.Duration
 	slowEnd   time.Time
+
+	// tty line discipline, see tty.go
+	tty                                                     string
+	ttyRng                                                  *rand.Rand
+	pending                                                 [][]byte
+	ctx                                                     []byte // the last LF-form bytes handed out (look-back for "framing")
+	pairs, pairsCut, cutAfterEnd, cutAfterHeader, cutInData int64
+	// what the library was really handed, in LF-form stream offsets (the transport model counts a
+	// read as delivered when this wrapper fetched it, pieces may still wait in pending)
+	hmu     sync.Mutex
+	handed  int
+	handedT []readMark
 }
 
 func (s *slowConn) Write(b []byte) error {
@@ -297,6 +310,9 @@ func (h *harness) onMsg(_ *ncsim.Server, c *devsim.Conn, m *ncsim.Msg) {
 }
 
 func (h *harness) deliveredTime(off int) (time.Time, bool) {
+	if h.sc != nil && h.sc.tty != "" {
+		return h.sc.handedTime(off)
+	}
 	for _, r := range h.reads {
 		if r.delivered >= off {
 			return r.t, true
@@ -452,6 +468,9 @@ func RunSession(s Session) mon.Result {
 		if about && curCollide != "" && !strings.Contains(key, "body-has-") {
 			key += "+body-has-" + curCollide + "-element"
 		}
+		if about && s.TTY != "" && !strings.Contains(key, "tty-crlf") {
+			key += "+tty-crlf-cut-" + s.TTY
+		}
 		if about && curForce != "" && !strings.Contains(key, "forced-schedule") {
 			key += "+forced-schedule-" + curForce
 		}
@@ -470,7 +489,8 @@ func RunSession(s Session) mon.Result {
 			Events: tail(conn.Log(), 80)}
 	}
 
-	sc := &slowConn{Conn: conn}
+	sc := &slowConn{Conn: conn, tty: s.TTY, ttyRng: rand.New(rand.NewSource(s.Seg.Seed ^ 0x7479))}
+	h.sc = sc
 	dopts := []util.Option{options.WithCustomTransport(sc), options.WithTimeoutOps(longTimeout)}
 	// forced schedules (process-wide yield hook; these cases run solo)
 	var fcCur, fcWantID, fcReadTops int64 = -1, 0, 0
@@ -573,7 +593,7 @@ func RunSession(s Session) mon.Result {
 	obs := map[string]int64{"sessions": 1, "calls": int64(len(s.Calls))}
 	tagset := map[string]bool{
 		"ver=" + s.Version: true, fmt.Sprintf("echo=%v", s.Echo): true, "profile=" + s.Profile: true,
-		fmt.Sprintf("seg=%s/%d", s.Seg.Mode, s.Seg.Size): true, fmt.Sprintf("read-delay=%dms", s.ReadDelayMs): true, fmt.Sprintf("echo-marked=%v", s.Echo && !s.NoEchoMark): true, fmt.Sprintf("cell=%s/echo=%v", s.Version, s.Echo): true,
+		"tty=" + s.TTY: true, fmt.Sprintf("seg=%s/%d", s.Seg.Mode, s.Seg.Size): true, fmt.Sprintf("read-delay=%dms", s.ReadDelayMs): true, fmt.Sprintf("echo-marked=%v", s.Echo && !s.NoEchoMark): true, fmt.Sprintf("cell=%s/echo=%v", s.Version, s.Echo): true,
 	}
 	sawTimeout := false
 	sawStraddle := false
@@ -921,6 +941,8 @@ func RunSession(s Session) mon.Result {
 				}
 				cause := fmt.Sprintf("%s:echo=%v:after-%s", s.Version, s.Echo, h.prevOutcome)
 				switch {
+				case s.TTY != "" && s.TTY != "none":
+					cause = fmt.Sprintf("%s:tty-crlf-cut-%s:after-%s", s.Version, s.TTY, h.prevOutcome)
 				case curForce == "held":
 					cause = s.Version + ":forced-schedule-held:reply-filed-between-store-check-and-wait"
 				case curForce == "parked":
@@ -1000,6 +1022,14 @@ func RunSession(s Session) mon.Result {
 		}
 		gen = conn.Generated()
 		obs["big_replies_sent"] = int64(h.bigSent)
+		if s.TTY != "" {
+			obs["tty_sessions"] = 1
+			obs["crlf_pairs_delivered"] = atomic.LoadInt64(&sc.pairs)
+			obs["crlf_pairs_cut_by_read_boundary"] = atomic.LoadInt64(&sc.pairsCut)
+			obs["crlf_cut_after_end_of_message_marker"] = atomic.LoadInt64(&sc.cutAfterEnd)
+			obs["crlf_cut_after_chunk_header"] = atomic.LoadInt64(&sc.cutAfterHeader)
+			obs["crlf_cut_inside_data_or_echo"] = atomic.LoadInt64(&sc.cutInData)
+		}
 		if s.Profile == "forced" {
 			obs["forced_schedules"] = atomic.LoadInt64(&fcForced)
 			obs["reply_filed_while_caller_held"] = atomic.LoadInt64(&fcFiledWhileHeld)
@@ -1142,6 +1172,7 @@ func init() {
 			"profile big: replies of 150-300 KiB (now, or late and released with/just before the next request) directly followed by the next reply or by a notification sent as a message of its own; read delay default..5 ms and a debug logger taking 0-3 ms per 'channel read' line, so that the NETCONF read loop runs behind the channel's",
 			"profile race: the server answers the moment the request is complete while the client's following return write blocks 50-300 ms before reaching the device (transport wrapper in this package), with and without an earlier timeout on the session",
 			"profile forced (solo cases, process-wide yield hook): the caller's goroutine is held at its first arrival at the library's yield point nc.rpc.before-wait (<= 300 ms) while the held reply to that very request is released and the NETCONF read loop files it (seen through its debug log line and the next pass of nc.read.top); control: reply released 20-80 ms after the call started",
+			"tty line discipline (a third of the sessions): every LF of the server->client stream (framing, data, echo) is delivered as CR LF by a transport wrapper in this package, with extra read boundaries between the CR and its LF (none / framing pairs / random / every pair); chunk sizes count the bytes as the server sent them (LF form), results are compared with the LF form",
 			"a planned-now reply is sent either the moment the request is complete (before the echo of the trailing return) or after the call's last transport write (nothing follows the reply)",
 			"the server answers with message-id=\"N\" in double quotes, N the id of the request, and replies never precede the complete request",
 			"random reply bodies and request arguments contain none of: ']]>]]>', '#', '</rpc>', 'message-id', 'subscription-id' (checked by brute force by the generator); " +
